@@ -23,6 +23,13 @@ func (s *SourceSplitter) VerifManualTicker() chan<- time.Time {
 	return ch
 }
 
+// VerifWake wakes the processShardAssignment loop through its own splitsDidFinish channel (the loop then runs
+// AvailableSplits + assignShards, without any request to Kinesis). It blocks while an earlier signal is pending.
+func (s *SourceSplitter) VerifWake() { s.splitsDidFinish <- struct{}{} }
+
+// VerifWakePending reports whether a signal is waiting to be received by the loop.
+func (s *SourceSplitter) VerifWakePending() bool { return len(s.splitsDidFinish) > 0 }
+
 // VerifUniformlyAssignShard exposes uniformlyAssignShard.
 func VerifUniformlyAssignShard(start, end *big.Int, numRunners int) int {
 	return uniformlyAssignShard(HashKeyRange{Start: start, End: end}, numRunners)
